@@ -51,8 +51,20 @@ def generate(rng, tier, shard, nshards):
                          site="WFSA.from_strings", feat="ctor")
         for k in ("zero", "one"):
             yield aops.event("wlang", {"sr": srn, "ctor": k, "M": A, "sigma": sig, "L": 2}, site=f"WFSA.{k}", feat="ctor")
-        # nested expression of depth 2-3: (A + B) * A^R, (A * B)^R, ...
-        yield aops.event("wop", dict(base, fn="add", B=B, style2=style2, then=["reverse"]), site="WFSA.nested", feat=feat)
+        # nested expressions: the (projected) result of one operation is the operand of the next, each step judged
+        cur = A
+        for depth in range(2):
+            fn = rng.choice(["kleene_plus", "star", "add", "mul", "reverse"] if srn in ("Sat3", "Sat2", "Bool")
+                            else ["add", "mul", "reverse"])
+            args = {"sr": srn, "A": cur, "sigma": sig, "L": 3 if fn in ("kleene_plus", "star") else L, "fn": fn,
+                    "style": rng.choice(aops.STATE_STYLES), "cls": cls}
+            if fn in ("add", "mul"):
+                args["B"], args["style2"] = B, style2
+            e = aops.event("wop", args, site=f"WFSA.nested/{fn}", feat="nested+" + feat)
+            yield e
+            if "exc" in e or e.get("skip") or e["out"]["n"] > 6:
+                break
+            cur = e["out"]
 
 
 def selftests(events, rng):
